@@ -105,6 +105,10 @@ def NOT(t):
         return t[1]
     if t[0] == "cmp":
         return mk_cmp(CMP_NEG[t[1]], t[2], t[3])
+    if t[0] == "and":
+        return OR(*[NOT(x) for x in t[1]])  # De Morgan: negations are pushed to the atoms
+    if t[0] == "or":
+        return AND(*[NOT(x) for x in t[1]])
     return ("not", t)
 
 
@@ -122,6 +126,20 @@ def ITE(c, a, b):
     return ("ite", c, a, b)
 
 
+def none_cond(t):
+    """Condition under which the conditional value t is None, when every leaf is decidably None / not None; else None."""
+    if t == NONE:
+        return TRUE
+    if t[0] == "ite":
+        a, b = none_cond(t[2]), none_cond(t[3])
+        if a is None or b is None:
+            return None
+        return OR(AND(t[1], a), AND(NOT(t[1]), b))
+    if t[0] in ("global", "lambda", "tuple", "list", "dict", "fstr") or (t[0] == "const" and t[1] is not None):
+        return FALSE
+    return None
+
+
 def AND(*ts):
     out = []
     for t in ts:
@@ -135,6 +153,8 @@ def AND(*ts):
                 out.append(x)
     for x in out:
         if NOT(x) in out:
+            return FALSE
+        if x[0] == "or" and all(NOT(d) in out for d in x[1]):
             return FALSE
     if not out:
         return TRUE
@@ -1038,6 +1058,10 @@ class Evaluator:
     def e_Subscript(self, n, live):
         base = self.ev(n.value, live)
         idx = self.ev(n.slice, live)
+        if base[0] == "global" and base[2] == "assign" and isinstance(n.ctx, ast.Load):
+            v = self._table_lookup(base, idx, ("error", "KeyError"))
+            if v is not None:
+                return v
         if base[0] in ("call", "ite") and idx[0] == "const" and isinstance(idx[1], int) and not isinstance(idx[1], bool) \
                 and self._is_record(base):
             v = self._record_get(base, index=idx[1])
@@ -1109,7 +1133,14 @@ class Evaluator:
         parts = []
         for op, comp in zip(n.ops, n.comparators):
             right = self.ev(comp, live)
-            parts.append(mk_cmp(CMP_AST[type(op)], left, right))
+            c = mk_cmp(CMP_AST[type(op)], left, right)
+            if c[1] in ("is", "isnot") and NONE in (c[2], c[3]):
+                other = c[3] if c[2] == NONE else c[2]
+                if other[0] == "ite":
+                    nc = none_cond(other)
+                    if nc is not None:
+                        c = nc if c[1] == "is" else NOT(nc)
+            parts.append(c)
             left = right
         if len(parts) == 1:
             return parts[0]
@@ -1242,6 +1273,49 @@ class Evaluator:
                 return subst(rets[0].term, {("param", p): a for p, a in zip(ls.params, arg_terms)})
         return ("call", fn, tuple(arg_terms), ())
 
+    def _table_lookup(self, g, key, default):
+        """G[key] / G.get(key, default) for a module-level dict display G with constant keys that nothing mutates:
+        the conditional chain `v1 if key == k1 else v2 if key == k2 ... else default`.  None = not such a table."""
+        try:
+            modname, name = g[1].split(":")
+            m, node = self.index.need_assign(modname, name)
+        except (AnalysisError, ValueError):
+            return None
+        if not isinstance(node, ast.Dict) or not node.keys or len(m.defs.get(name, [])) != 1:
+            return None
+        if not all(isinstance(k, ast.Constant) for k in node.keys):
+            return None
+        # never mutated: no `G[...] = `, `del G[...]`, `G.<mutator>(...)` anywhere in the package
+        cache = self.index.__dict__.setdefault("_mutated_globals", None)
+        if cache is None:
+            cache = set()
+            for mm in self.index.modules.values():
+                for nd in ast.walk(mm.tree):
+                    tgt = None
+                    if isinstance(nd, (ast.Subscript,)) and isinstance(nd.ctx, (ast.Store, ast.Del)):
+                        tgt = nd.value
+                    elif isinstance(nd, ast.Call) and isinstance(nd.func, ast.Attribute) and nd.func.attr in (
+                            "update", "setdefault", "pop", "popitem", "clear", "__setitem__", "append", "extend"):
+                        tgt = nd.func.value
+                    if tgt is not None:
+                        sy = self.index.resolve_expr(mm, tgt) if isinstance(tgt, (ast.Name, ast.Attribute)) else None
+                        if sy is not None and sy.kind == "assign":
+                            cache.add(sy.qual)
+            self.index.__dict__["_mutated_globals"] = cache
+        if g[1] in cache:
+            return None
+        v = default
+        for k, vn in reversed(list(zip(node.keys, node.values))):
+            sy = self.index.resolve_expr(m, vn) if isinstance(vn, (ast.Name, ast.Attribute)) else None
+            if sy is not None:
+                val = sym_term(sy)
+            elif isinstance(vn, ast.Constant):
+                val = ("const", vn.value)
+            else:
+                return None
+            v = ITE(mk_cmp("eq", key, ("const", k.value)), val, v)
+        return v
+
     def _getter_global(self, f):
         """`_get = operator.attrgetter("a.b")` at module level: the term of the getter call it is bound to"""
         try:
@@ -1254,6 +1328,12 @@ class Evaluator:
             if fn is not None and fn.kind == "ext" and fn.qual[4:] in ("operator.attrgetter", "operator.itemgetter"):
                 return ("call", ("ext", fn.qual[4:]), tuple(("const", a.value) for a in node.args), ())
         return f
+
+    @staticmethod
+    def _ite_leaves(t):
+        if t[0] == "ite":
+            return Evaluator._ite_leaves(t[2]) + Evaluator._ite_leaves(t[3])
+        return [t]
 
     def _apply_in_loop(self, fn, el, lid, live, n):
         """fn(el) evaluated once per element of loop `lid`: the call is an event of that loop (as in a comprehension)"""
@@ -1327,6 +1407,28 @@ class Evaluator:
                 return NOT(args[0])
             if name == "neg" and len(args) == 1:
                 return ("neg", args[0])
+        # TABLE.get(key[, default]) on a constant module-level table
+        if f[0] == "attr" and f[2] == "get" and f[1][0] == "global" and f[1][2] == "assign" and plain and len(args) in (1, 2):
+            v = self._table_lookup(f[1], args[0], args[1] if len(args) == 2 else NONE)
+            if v is not None:
+                return v
+        # calling a conditional choice of functions: (f if c else g)(x) is f(x) if c else g(x)
+        if f[0] == "ite" and all(x[0] in ("global", "const", "lambda", "ext") for x in self._ite_leaves(f)):
+            def dist(fn, lv):
+                if fn[0] == "ite":
+                    return ITE(fn[1], dist(fn[2], AND(lv, fn[1])), dist(fn[3], AND(lv, NOT(fn[1]))))
+                if fn == NONE or fn[0] == "const":
+                    return ("error", "call of a non-function")
+                t_ = ("call", fn, tuple(args), tuple(named + spreads))
+                if lv == FALSE:
+                    return t_
+                inl = self._try_inline(fn, t_, lv, n)
+                if inl is not None:
+                    return inl
+                ev_ = self.emit("call", lv, t_, n)
+                ev_.kw_order = [k for k, _ in named]  # type: ignore[attr-defined]
+                return t_
+            return dist(f, live)
         # operator.attrgetter("a.b")(x) is x.a.b ; operator.itemgetter(k)(x) is x[k]
         if f[0] == "call" and f[1] in (("ext", "operator.attrgetter"), ("ext", "operator.itemgetter")) and plain and len(args) == 1:
             v = self._apply_fn(f, args)
